@@ -137,7 +137,7 @@ def _extra(lines, verdicts):
            "alloc_failures": 0, "dropped_never_written": 0, "dropped_before_write": 0, "dropped_after_write": 0,
            "dropped_after_response": 0, "max_outstanding_on_one_connection": 0, "exhaustion_runs_reaching_32768": 0,
            "oversized_frames_on_the_wire": 0, "not_run_env": 0, "exhaustion_runs_total": 0,
-           "exhaustion_runs_with_refusal_after_abandon_and_wait": 0, "scenarios_with_repeated_attempts": 0, "not_run_by_kind": {}, "frames_on_negative_stream_ids": 0,
+           "exhaustion_runs_with_refusal_after_abandon_and_wait": 0, "scenarios_with_repeated_attempts": 0, "not_run_by_kind": {}, "ran_by_kind": {}, "frames_on_negative_stream_ids": 0,
            "threshold_runs_connection_ended": 0, "threshold_runs_connection_kept": 0,
            "callers_failed_by_orphan_threshold": 0, "submit_storm_runs": 0, "submit_storm_callers_aborted": 0}
     timed = {"cases": 0, "allocations_refused_after_real_wait": 0, "count_probes": 0}
@@ -151,10 +151,14 @@ def _extra(lines, verdicts):
         if k == "T" and vd and vd.startswith("ok oldids"):
             timed_oldids += 1
         if k in E2E_KINDS:
+            sub = k
+            if k == "K":
+                sub = "K-end" if int(case.split()[2]) > 1024 else "K-keep"
             if (vd and vd.startswith("ok notrun")) or out.split()[:1] == ["setup-error"] or " NEXT setup-error" in out:
                 e2e["not_run_env"] += 1
-                e2e["not_run_by_kind"][k] = e2e["not_run_by_kind"].get(k, 0) + 1
+                e2e["not_run_by_kind"][sub] = e2e["not_run_by_kind"].get(sub, 0) + 1
                 continue
+            e2e["ran_by_kind"][sub] = e2e["ran_by_kind"].get(sub, 0) + 1
             ev = _events(ln)
             e2e["runs"] += 1
             if " NEXT " in out:
@@ -297,18 +301,25 @@ def post(lines, verdicts):
         return out
     cov = _extra(lines, verdicts)
     ti = _tier()
-    # a floor fed by one kind of scenario gives way by the number of such scenarios that could not run
-    # (environment; capped below), so that a tolerated not-run cannot trip a floor
+    # A floor fed by one kind of scenario gives way (to 1) when scenarios of that kind could not run
+    # (environment; capped below) -- but only while at least one scenario of that kind still ran: a
+    # kind none of whose scenarios ran is "tie not exercised".
     by_kind = cov["end_to_end"]["not_run_by_kind"]
+    ran = cov["end_to_end"]["ran_by_kind"]
     feeds = {"exhaustion_runs_reaching_32768": "X", "exhaustion_runs_with_refusal_after_abandon_and_wait": "X",
-             "alloc_failures": "X", "threshold_runs_connection_ended": "K", "threshold_runs_connection_kept": "K",
-             "callers_failed_by_orphan_threshold": "K", "oversized_frames_on_the_wire": "G"}
+             "alloc_failures": "X", "threshold_runs_connection_ended": "K-end", "threshold_runs_connection_kept": "K-keep",
+             "callers_failed_by_orphan_threshold": "K-end", "oversized_frames_on_the_wire": "G"}
+    for sub in ("X", "K-end", "K-keep", "G"):
+        if by_kind.get(sub, 0) > 0 and ran.get(sub, 0) == 0:
+            out.append(("diff", f"coverage kind {sub}", f"diff e2e tie not exercised: none of the {by_kind[sub]} {sub} scenarios could run"))
     for (grp, key), fl in FLOORS.items():
         need = fl[ti]
         if grp == "end_to_end" and key in feeds and by_kind.get(feeds[key], 0) > 0:
-            need = 0
+            need = min(need, 1)
         if key == "runs":
             need -= cov["end_to_end"]["not_run_env"]
+        if key == "completed_with_own_answer":
+            need -= 32768 * by_kind.get("X", 0)
         if cov[grp][key] < need:
             out.append(("diff", f"coverage {grp}.{key}", f"diff coverage-floor: {grp}.{key} = {cov[grp][key]} < {need}: "
                         "the run did not exercise what the evidence claims"))
